@@ -17,15 +17,44 @@ def gen_bigdec(rng):
     return ("-" if neg else "") + ip + "." + fr
 
 
-def bigdecimal_stream(rep, tier, seed, harness, wd):
-    """BigDecimal is written as the decimal text the bigdecimal crate renders and parsed back by that crate: the
-    text is a third-party function, not modelled; the stream is judged on the implementation alone"""
+BD_TEXTS = ["0", "-0", "+0", "1", "-1", "+1", "1.", ".5", "-.5", "+.5", ".", "", "-", "+", "e", "e5", "1e", "1e+", "1e-",
+            "1e5", "1E5", "1e+5", "1e-5", "1.5e3", "1.5E-3", "15e-1", "1_000", "1_000.5", "1._5", "_1", "1_", "-_1",
+            "1__2", "1.5_", "1.5_e2", "1e1_0", "1e_1", "--1", "-+1", "+-1", "++1", "+1e+1", "1e++1", "1e+-1", "1..2",
+            "1.2.3", "1e2e3", "1e2.5", "0x10", "1a", "a", "NaN", "inf", "Infinity", "1 ", " 1", "1\n", "١", "1é",
+            "0.000000", "0.0000001", "0E-7", "000", "0000.000", "00012", "1e15", "1e16", "1e-15", "100e-2",
+            "1e9223372036854775807", "1e9223372036854775808", "1e-9223372036854775807", "1e-9223372036854775808",
+            "1e9223372036854775809", "1.5e9223372036854775808", "1.55e9223372036854775809", "1.5e-9223372036854775807",
+            "1e170141183460469231731687303715884105727", "1e170141183460469231731687303715884105728",
+            "1e-170141183460469231731687303715884105728", "1e-170141183460469231731687303715884105729",
+            "1e+00000000000000000000000000000000000000000005", "0e99999999999999999999999999999999999999999",
+            "123456789012345678901234567890.123456789012345678901234567890", "1" + "0" * 400, "0." + "0" * 300 + "1"]
+
+
+def bd_text_case(txt_bytes):
+    """the encoding of a String holding txt, as input to the BigDecimal decoder"""
+    n = len(txt_bytes)
+    zz, pre = n << 1, bytearray()
+    while True:
+        if zz < 128:
+            pre.append(zz)
+            break
+        pre.append((zz & 0x7f) | 0x80)
+        zz >>= 7
+    return {"env": "-", "cmd": "dec", "ty": "bigdec", "hex": (bytes(pre) + txt_bytes).hex(), "unordered": False}
+
+
+def bigdecimal_stream(rep, tier, seed, harness, model, wd):
+    """BigDecimal is written as the decimal text the bigdecimal crate renders and read by that crate's parser; both are
+    transcribed in coq/BigDec.v. (a) values: every formatter branch, both ends of the i64 scale, values that are not
+    their own representative (scales -15..-1); implementation = model, and the round trip on the implementation alone.
+    (b) texts: what the parser accepts - signs, underscores, dots, exponents at the i64 and i128 limits, garbage -
+    implementation = model (value or error class)."""
     rng = C.rng_for(seed, "C01bd")
     n = 1500 if tier == "quick" else 40000
     cases = []
     for i in range(n):
-        shape = rng.choice(["p", "p", "vec", "opt", "tup", "map"])
-        mk = lambda: "b" + gen_bigdec(rng).encode().hex()
+        shape = rng.choice(["p", "p", "p", "vec", "opt", "tup", "map"])
+        mk = lambda: G.gen_bigdec_value(rng, normal=rng.random() < 0.7)
         if shape == "p":
             t, v = G.P("bigdec"), mk()
         elif shape == "vec":
@@ -38,20 +67,57 @@ def bigdecimal_stream(rep, tier, seed, harness, wd):
         else:
             t, v = ("map", "bmap", G.P("u16"), G.P("bigdec")), f"(0 (0 n1 {mk()}) (0 n2 {mk()}))"
         cases.append(R.mk(None, t, v, rng.choice(R.SUFFIXES)))
-    lines = [C.codec_line(c) for c in cases]
-    impl = C._run_codec_side(harness, cases, lines, wd, "bigdec", 16, 3000)
+    impl, mod = C.run_codec(harness, model, cases, wd, "bigdec")
+    dis = [(C.codec_line(c), a, b) for c, a, b in zip(cases, impl, mod) if a != b]
     bad = []
     for c, a in zip(cases, impl):
         ok, why = R.judge_rt(c, a)
         if not ok:
-            bad.append((c, a, why))
-    rep.coverage["bigdecimal_stream"] = {"cases": len(cases), "failing": len(bad), "judged": "implementation alone (not modelled)",
-                                         "sample": lines[0][:120]}
-    rep.coverage["evaluations"] = rep.coverage.get("evaluations", 0) + len(cases)
+            bad.append((C.codec_line(c), a, why))
+    # (b) texts
+    texts = [t.encode() for t in BD_TEXTS]
+    alphabet = "0123456789" * 3 + "..eE+-__ "
+    for _ in range(1500 if tier == "quick" else 60000):
+        c = rng.random()
+        if c < 0.5:
+            # grammar-shaped: [sign] digits [. digits] [e [sign] digits], with underscores and defects sprinkled in
+            t = rng.choice(["", "", "-", "+"]) + "".join(rng.choice("0123456789_") if rng.random() < 0.15 else rng.choice("0123456789")
+                                                         for _ in range(rng.randrange(0, 12)))
+            if rng.random() < 0.6:
+                t += "." + "".join(rng.choice("0123456789") for _ in range(rng.randrange(0, 12)))
+            if rng.random() < 0.5:
+                t += rng.choice("eE") + rng.choice(["", "", "-", "+"]) + str(rng.choice(
+                    [0, 1, 5, 15, 16, 20, 21, 300, (1 << 63) - 1, 1 << 63, (1 << 63) + 1, (1 << 127) - 1, 1 << 127, rng.getrandbits(70)]))
+            if rng.random() < 0.2 and t:
+                k = rng.randrange(len(t))
+                t = t[:k] + rng.choice(alphabet) + t[k + rng.randrange(2):]
+        elif c < 0.8:
+            t = "".join(rng.choice(alphabet) for _ in range(rng.randrange(0, 10)))
+        else:
+            i, sc = G.gen_bigdec_pair(rng, normal=False)
+            t = str(i) + "e" + str(-sc)
+        texts.append(t.encode())
+    tcases = [bd_text_case(t) for t in texts]
+    timpl, tmod = C.run_codec(harness, model, tcases, wd, "bigdec.text")
+    dis += [(C.codec_line(c), a, b) for c, a, b in zip(tcases, timpl, tmod) if a != b]
+    for c, a in zip(tcases, timpl):
+        if a.startswith("panic") or a in ("hang", "abort"):
+            bad.append((C.codec_line(c), a, "decoding a BigDecimal text does not return"))
+    accepted = sum(1 for a in timpl if a.startswith("ok "))
+    rep.coverage["bigdecimal_stream"] = {"values": len(cases), "texts": len(tcases), "texts_accepted": accepted,
+                                         "failing": len(bad), "disagreements": len(dis),
+                                         "judged": "implementation = model (coq/BigDec.v) and the round trip on the implementation alone",
+                                         "sample": C.codec_line(cases[0])[:120]}
+    rep.coverage["evaluations"] = rep.coverage.get("evaluations", 0) + len(cases) + len(tcases)
     if bad:
-        c, a, why = bad[0]
-        rep.violation(f"BigDecimal: {why}: {C.codec_line(c)[:160]}",
-                      {"kind": "case", "case": C.codec_line(c), "implementation": a, "why": why, "n_failing": len(bad)})
+        line, a, why = bad[0]
+        rep.violation(f"BigDecimal: {why}: {line[:160]}",
+                      {"kind": "case", "case": line, "implementation": a, "why": why, "n_failing": len(bad)})
+    elif dis:
+        line, a, b = dis[0]
+        rep.violation(f"BigDecimal: implementation and model (coq/BigDec.v) disagree on {line[:160]}",
+                      {"kind": "correspondence", "stream": "bigdec", "case": line, "implementation": a, "model": b,
+                       "n_disagreements": len(dis)}, no_input=True)
 
 
 def mono_stream(rep, tier, seed, harness, model, wd):
@@ -177,16 +243,19 @@ def check(rep, tier, seed):
         "through the public entry points (dynamic route: the library's generic impls instantiated at a run-time "
         "typed value); 14 type expressions nested 150 and 400 levels deep; strings, vectors, lists, maps, byte arrays and big "
         "integers at every width boundary of their length prefix up to 2^21; non-trivial = distinct case lines; BigDecimal: "
-        "implementation-only stream")
+        "values in every formatter branch and at both ends of the i64 scale, and a text stream for its parser")
     R.run_and_judge(rep, "C01", "C01", cases, tier, seed,
                     extra_trusted=["chrono's calendar (valid dates/times/offsets/timestamps) and chrono-tz's name table are "
                                    "oracles written out in coq/Calendar.v and coq/TzNames.v; their agreement with the crates is "
                                    "sampled by this stream (boundaries of every predicate) and the name list is compared on "
                                    "every run; DateTime<Local> under TZ=UTC",
-                                   "not modelled: BigDecimal's decimal text (bigdecimal crate); its stream is judged on the "
-                                   "implementation alone"])
+                                   "the decimal text of BigDecimal (bigdecimal 0.4.6 Display and FromStr, num-bigint's integer "
+                                   "parser, i128::from_str) is an oracle written out in coq/BigDec.v; its agreement with the "
+                                   "crates is sampled by the BigDecimal value and text streams; BigDecimal values are observed "
+                                   "through the representative their text determines (bd_norm: Rust's equality on BigDecimal "
+                                   "is numeric)"])
     harness = C.build_harness("release")
     big_stream(rep, harness, C.workdir("C01big"), big)
-    bigdecimal_stream(rep, tier, seed, harness, C.workdir("C01bd"))
+    bigdecimal_stream(rep, tier, seed, harness, C.build_model(), C.workdir("C01bd"))
     mono_stream(rep, tier, seed, harness, C.build_model(), C.workdir("C01mono"))
     tz_list_check(rep, harness)
